@@ -90,7 +90,7 @@ class C16(Prop):
             "a yield point. After a Hypothesis-drawn warm-up history, 2-3 generator requests (index_batch_crawl_iter, "
             "add_webentity_creation_rule_iter, page / crawled-page / pagelink / child / most-linked / cited / citing / network "
             "queries) are advanced in a drawn order of 'advance request i' choices; in addition, for drawn two-request scenarios "
-            "ALL interleavings are enumerated by re-execution (bounded per scenario, see schedules_enumerated / "
+            "(thorough: also three-request) ALL interleavings are enumerated by re-execution (bounded per scenario, see schedules_enumerated / "
             "scenarios_enumerated_completely). Oracle: (1) no request raises; (2) final pages, crawled marks, link Counter and "
             "count_links equal the batches applied one after another in submission order; (3) in/out symmetry (all C03 clauses) "
             "and raw-bytes fsck on the final state; (4) each query's answer contains every item present in the atomic reference "
@@ -418,10 +418,15 @@ class C16(Prop):
             try:
                 for _ in range(data.draw(st.integers(2, 6))):
                     case.step(data.draw(op_strategy(v, case.led, self.weights(), cfg.backend, case.ops)))
-                kinds = data.draw(st.sampled_from([("batch", "batch"), ("batch", "rule"), ("batch", "q-network"),
-                                                   ("batch", "q-pages"), ("batch", "q-pagelinks"), ("rule", "q-network"),
-                                                   ("batch", "q-mostlinked"), ("rule", "q-children"), ("rule", "q-pages")]))
-                reqs = self.draw_requests(case, data, n=2, kinds=list(kinds))
+                two = [("batch", "batch"), ("batch", "rule"), ("batch", "q-network"), ("batch", "q-pages"),
+                       ("batch", "q-pagelinks"), ("rule", "q-network"), ("batch", "q-mostlinked"), ("rule", "q-children"),
+                       ("rule", "q-pages"), ("batch", "q-network-slow"), ("batch", "q-inlinks")]
+                three = [("batch", "batch", "q-network"), ("batch", "rule", "q-pages"), ("batch", "batch", "batch"),
+                         ("batch", "rule", "q-network")]
+                # thorough: one scenario in four has three requests (usually truncated at the cap; counted as such)
+                pool = two if (tier == "quick" or data.draw(st.integers(0, 3)) != 0) else three
+                kinds = data.draw(st.sampled_from(pool))
+                reqs = self.draw_requests(case, data, n=len(kinds), kinds=list(kinds))
                 warm = [op_to_json(o) for o in case.ops]
                 cfgj = cfg.to_json()
             finally:
